@@ -5,7 +5,9 @@
      models/numerical_expression.py NumericalExpressionTree.change_signature
      models/pddl_precondition.py    Precondition / UniversalPrecondition / CompoundPrecondition.change_signature
      models/conditional_effect.py   ConditionalEffect / UniversalEffect.change_signature
-   on the tree after the repair D23 (see findings.d/C18.json): every signature dict is REBUILT by a dict
+   on the tree after the repair D23 (see findings.d/C18.json) and before eb5fde6 (repair D75b: a quantifier renames its own
+   variable to a fresh name when a new name equals it - that step is modelled in Model.ChangeSignatureAlpha, which agrees
+   with this file wherever no new name is a quantified variable): every signature dict is REBUILT by a dict
    comprehension  {mapping.get(name, name): type for name, type in signature.items()}.
    The comprehension is modelled as what CPython does: successive  d[k'] = v  on an empty dict (Base.PyDict.dset:
    replace in place | append), so what happens under a non-injective mapping is computed, not assumed.
